@@ -67,6 +67,7 @@ def run(model, route):
     return out.getvalue(), fns, pf
 
 def check_case(rep, case, name):
+    if case.get('kind') == 'shared-leading-form': shared_leading_form_cases(rep); return
     model, route = case['model'], case['route']
     try: text, fns, pf = run(model, route)
     except Exception as e: rep.dev(name, case, 'exception %r' % (e,), 'a setfl file'); return
@@ -109,11 +110,40 @@ def gen_case(rng):
         for p in m['pairs']: p['fn'] = polyonly(p['fn'])
     return dict(route=route, model=m)
 
+def shared_leading_form_cases(rep):
+    """[Pair] entries of one EAM model that start with the same form and parameters but differ in their later ranges: each r*phi block
+    is the function of its own entry (every listing order of the entries)"""
+    import itertools
+    from atsim.potentials.config import Configuration
+    head = ('[Tabulation]\ntarget : setfl\nnr : 12\ncutoff : 5.5\nnrho : 10\ncutoff_rho : 9.0\n\n[EAM-Embed]\nAl : as.polynomial 0.0 1.0\nCu : as.polynomial 0.0 2.0\n\n'
+            '[EAM-Density]\nAl : as.polynomial 1.0\nCu : as.polynomial 2.0\n\n[Pair]\n')
+    rows = [('Al-Al', 'as.polynomial 1.0 2.0 >=2.5 as.zero', lambda r: (1.0 + 2.0 * r) if r < 2.5 else 0.0),
+            ('Al-Cu', 'as.polynomial 1.0 2.0', lambda r: 1.0 + 2.0 * r),
+            ('Cu-Cu', 'as.polynomial 1.0 2.0 >=1.0 as.polynomial 3.0', lambda r: (1.0 + 2.0 * r) if r < 1.0 else 3.0)]
+    want = {(0, 0): rows[0][2], (1, 0): rows[1][2], (1, 1): rows[2][2]}
+    for perm in itertools.permutations(range(3)):
+        nm = 'shared-leading-form-' + ''.join(str(i) for i in perm)
+        case = dict(kind='shared-leading-form', order=list(perm)); rep.case('shared-leading-form', nm)
+        ini = head + ''.join('%s : %s\n' % rows[i][:2] for i in perm)
+        out = io.StringIO()
+        try: Configuration().read(io.StringIO(ini)).write(out); f = parse_setfl(out.getvalue())
+        except Exception as e: rep.dev(nm, case, 'exception %r' % (e,), 'a setfl file'); continue
+        dr = 5.5 / 11; bad = None
+        for key, fn in want.items():
+            vals = f['pairs'].get(key)
+            if vals is None: bad = ('no block for %r' % (key,), 'a block'); break
+            for k in range(1, 12):
+                if not close(vals[k], k * dr * fn(k * dr), 1e-12, 1e-14): bad = ('r*phi_%r[%d]=%r' % (key, k, vals[k]), k * dr * fn(k * dr)); break
+            if bad: break
+        if bad: rep.dev(nm, case, bad[0], bad[1])
+        else: rep.ok(33)
+
 if __name__ == '__main__':
     pl = payload(); rep = Report('C03')
     if pl.get('mode') == 'replay': rep.case('replay', pl['input']); check_case(rep, pl['input'], 'replay')
     else:
         rng = random.Random(pl.get('seed', 0))
+        shared_leading_form_cases(rep)
         for i in range(pl.get('n', 40)):
             c = gen_case(rng); rep.case(c['route'], c); check_case(rep, c, 'seeded-%d' % i)
     rep.finish()
